@@ -182,3 +182,74 @@ Example C17_example3_frame :
   end.
 Proof. exact ex17c_frame. Qed.
 
+
+(* ------------------------------------------------------------------------------------------------ *)
+(* whole schedules (HInterleave.v, HEquiv_*.v): the model never depends on concrete addresses, so    *)
+(* "every thread obtains the same results as it would running alone" holds for EVERY interleaving    *)
+(* ------------------------------------------------------------------------------------------------ *)
+From CB Require Import HInterleave HEquiv_prims HEquiv_ops HEquiv_proofs.
+
+(* equivariance of every client call of the three API layers under injective renamings of addresses: run in a world [w2]
+   that contains a renamed copy of [w1] (and arbitrary other cells), the call returns the SAME observable output, the tables
+   and worlds stay related by an extension of the renaming, every cell outside the image is untouched, and everything the call
+   touches lies in the image.  Allocator oracles that do not depend on the request index. *)
+Theorem C17_step3_equivariant : forall refuse, index_independent refuse -> forall L f s1 s2 o w1 w2 s1' out w1',
+  Sim f w1 w2 -> Rcs3 f s1 s2 ->
+  step3 refuse L s1 o w1 = Ret (s1', out) w1' ->
+  exists f' s2' w2',
+    step3 refuse L s2 o w2 = Ret (s2', out) w2' /\
+    ext f f' /\ Rcs3 f' s1' s2' /\ Sim f' w1' w2' /\
+    (forall b, b < next w2 -> (forall a, f a <> Some b) -> heap w2' b = heap w2 b) /\
+    (forall a b, f' a = Some b -> f a = Some b \/ (next w1 <= a /\ next w2 <= b)) /\
+    (forall b, next w2 <= b -> b < next w2' -> exists a, f' a = Some b) /\
+    next w1 <= next w1' /\ next w2 <= next w2' /\
+    (forall p, In p (touched w2 w2') -> exists a, f' a = Some p).
+Proof. exact step3_equivariant. Qed.
+Print Assumptions C17_step3_equivariant.
+
+(* any number of threads, each with a program over all three API layers and its own handle table, one shared heap and
+   allocator: for EVERY complete interleaving of the programs, if each thread alone runs to the end then so does the
+   interleaved run, every thread observes exactly the outputs of its run alone, its final table and heap are renamed copies
+   of those of the run alone, and the shared heap is the disjoint union of these copies *)
+Theorem C17_interleaving : forall refuse, index_independent refuse -> forall L progs sched,
+  complete sched (map thread0 progs) ->
+  (forall prog, In prog progs -> exists s outs w, run_hist3 refuse L prog s3_0 [] world0 = Ret (s, outs) w) ->
+  exists ths w fs,
+    run_sched refuse L sched (map thread0 progs) world0 = Ret ths w /\
+    length ths = length progs /\ length fs = length progs /\
+    (forall t prog s outs wt, nth_error progs t = Some prog ->
+       run_hist3 refuse L prog s3_0 [] world0 = Ret (s, outs) wt ->
+       exists th f, nth_error ths t = Some th /\ nth_error fs t = Some f /\
+         t_prog th = [] /\ outputs th = outs /\ Rcs3 f s (t_state th) /\ Sim f wt w) /\
+    disjoint_images fs /\ covered fs w.
+Proof. exact HEquiv_proofs.C17_interleaving. Qed.
+Print Assumptions C17_interleaving.
+
+Theorem C17_schedule_independent : forall refuse, index_independent refuse -> forall L progs sched1 sched2,
+  complete sched1 (map thread0 progs) -> complete sched2 (map thread0 progs) ->
+  (forall prog, In prog progs -> exists s outs w, run_hist3 refuse L prog s3_0 [] world0 = Ret (s, outs) w) ->
+  exists ths1 w1 ths2 w2,
+    run_sched refuse L sched1 (map thread0 progs) world0 = Ret ths1 w1 /\
+    run_sched refuse L sched2 (map thread0 progs) world0 = Ret ths2 w2 /\
+    map outputs ths1 = map outputs ths2.
+Proof. exact HEquiv_proofs.C17_schedule_independent. Qed.
+Print Assumptions C17_schedule_independent.
+
+(* no address is touched (read, written, freed, reallocated, obtained) by calls of two different threads: whatever finer
+   interleaving of the calls' instructions the hardware produces, two threads never access the same location *)
+Theorem C17_no_shared_access : forall refuse, index_independent refuse -> forall L progs sched,
+  complete sched (map thread0 progs) ->
+  (forall prog, In prog progs -> exists s outs w, run_hist3 refuse L prog s3_0 [] world0 = Ret (s, outs) w) ->
+  let log := sched_log refuse L sched (map thread0 progs) world0 in
+  map fst log = sched /\
+  forall t A t' A' p, In (t, A) log -> In (t', A') log -> t <> t' -> In p A -> In p A' -> False.
+Proof. exact HEquiv_proofs.C17_no_shared_access. Qed.
+Print Assumptions C17_no_shared_access.
+
+(* non-vacuity: two threads (allocation, push, decref, serialized size, cbor_new_int8 + set, predicates), two schedules *)
+Example C17_interleaving_nonvacuous :
+  exists ths1 w1 ths2 w2,
+    run_sched never 8 ex_sched (map thread0 [exA; exB]) world0 = Ret ths1 w1 /\
+    run_sched never 8 ex_sched' (map thread0 [exA; exB]) world0 = Ret ths2 w2 /\
+    map outputs ths1 = map outputs ths2.
+Proof. exact ex_by_theorem. Qed.
